@@ -95,6 +95,36 @@ func (m *Machine) fmtValue(fr *frame, verb byte, a Iface) Str {
 			return m.callSSA(fr, 0, f, []Value{a.v}, nil).(Str)
 		}
 	}
+	// Stringers (value method sets only: a pointer-receiver String is not used for a value)
+	if verb == 'v' || verb == 's' {
+		if _, isItf := a.t.Underlying().(*types.Interface); !isItf {
+			if sel := m.prog.MethodSets.MethodSet(a.t).Lookup(nil, "String"); sel != nil {
+				if f := m.prog.MethodValue(sel); f != nil && f.Signature.Params().Len() == 0 && f.Signature.Results().Len() == 1 {
+					if r, ok := m.callSSA(fr, 0, f, []Value{a.v}, nil).(Str); ok {
+						return r
+					}
+				}
+			}
+		}
+	}
+	if st, ok := a.v.(Struct); ok && (verb == 'v' || verb == 's') {
+		stt, isSt := a.t.Underlying().(*types.Struct)
+		if isSt {
+			out := mkStr("{")
+			for i := range st {
+				if i > 0 {
+					out = strConcat(out, mkStr(" "))
+				}
+				fv := st[i]
+				it, isIf := fv.(Iface)
+				if !isIf {
+					it = Iface{t: stt.Field(i).Type(), v: fv}
+				}
+				out = strConcat(out, m.fmtValue(fr, verb, it))
+			}
+			return strConcat(out, mkStr("}"))
+		}
+	}
 	switch v := a.v.(type) {
 	case Str:
 		switch verb {
